@@ -2,9 +2,10 @@
 mod scenarios;
 mod scn_rpc;
 mod scn_batch;
+mod scn_hs;
 
 fn all_scenarios() -> Vec<&'static dyn Scenario> {
-    vec![&scenarios::Basic, &scenarios::Close, &scenarios::Death, &scn_rpc::Rpc, &scn_rpc::ChClose, &scn_rpc::Wire, &scn_batch::Batch]
+    vec![&scenarios::Basic, &scenarios::Close, &scenarios::Death, &scn_rpc::Rpc, &scn_rpc::ChClose, &scn_rpc::Wire, &scn_batch::Batch, &scn_hs::Hs]
 }
 
 use serde_json::{json, Value};
